@@ -359,7 +359,7 @@ pub fn run(ctx: &Ctx) -> Report {
       ("empty-file-at-output", Box::new(|sb: &Sandbox| sb.write("in/content.torrent", b"")), vec!["--input", "in/content"], None, 1, vec![]),
       ("empty-file-at-output-dry-run", Box::new(|sb: &Sandbox| sb.write("in/content.torrent", b"")), vec!["--input", "in/content", "--dry-run"], None, 1, vec![]),
       ("empty-file-at-explicit-output", Box::new(|sb: &Sandbox| sb.write("out/t.torrent", b"")), vec!["--input", "in/content", "--output", "out/t.torrent"], None, 1, vec![]),
-      ("output-through-symlinked-directory-then-dotdot", Box::new(|sb: &Sandbox| { sb.mkdir("real/deep"); link(sb, "real/deep", "link"); }), vec!["--input", "in/content", "--output", "link/../here.torrent"], None, 0, vec!["here.torrent"]),
+      ("output-through-symlinked-directory-then-dotdot", Box::new(|sb: &Sandbox| { sb.mkdir("real/deep"); link(sb, "real/deep", "link"); }), vec!["--input", "in/content", "--output", "link/../here.torrent"], None, 0, vec!["here.torrent|real/here.torrent"]),
       ("force-leaves-sibling-tmp-alone", Box::new(|sb: &Sandbox| { sb.write("out/t.tmp", b"someone else's"); sb.write("out/t.torrent.tmp", b"and this"); sb.write("out/t.torrent", b"old old old"); }), vec!["--input", "in/content", "--output", "out/t.torrent", "--force"], None, 0, vec!["out/t.torrent"]),
       ("directory-input-with-trailing-slash", Box::new(|sb: &Sandbox| { sb.write("in/d/a", b"alpha"); }), vec!["--input", "in/d/"], None, 0, vec!["in/d.torrent"]),
       ("directory-input-with-trailing-slash-dot", Box::new(|sb: &Sandbox| { sb.write("in/d/a", b"alpha"); }), vec!["--input", "in/d/."], None, 0, vec!["in/d.torrent"]),
@@ -409,7 +409,8 @@ pub fn run(ctx: &Ctx) -> Report {
       want.sort();
       if out.signal.is_some() || out.code != Some(*want_exit) {
         report.fail("property", "create-filesystem-effect", case, format!("exit {:?} (signal {:?}), documented behaviour gives {want_exit}: {}", out.code, out.signal, out.stderr_s().lines().last().unwrap_or("")));
-      } else if changed != want {
+      } else if changed != want && !(want.len() == 1 && changed.len() == 1 && want[0].split('|').any(|w| w == changed[0])) {
+        // (`a|b`: either path is a fair reading of the target)
         report.fail("property", "create-filesystem-effect", case, format!("changed paths {changed:?}, documented behaviour changes exactly {want:?}"));
       }
     }
